@@ -288,6 +288,8 @@ def run(ctx):
     finally:
         shutil.rmtree(tmp, ignore_errors=True)
     ctx.counted('str vs bytes', evals, len(nontriv), [{'pattern': pats[0]}, {'byte': '0xe9', 'form': '[!z-a]'}])
+    from props import fringe
+    fringe.ascii_controls(ctx)
     return ctx.finish(RULE)
 
 
